@@ -199,6 +199,23 @@ Theorem C17_reset_by_value_refused : forall s, si_reset (AVal s) = Ret (AVal s) 
 Proof. exact reset_val. Qed.
 Print Assumptions C17_reset_by_value_refused.
 
+(* ---------- a foreign dynamic type ---------- *)
+(* not demanded by C17 (C12 speaks about it); recorded because the model and the harness cover it *)
+Theorem C17_foreign_refused :
+  (forall p, si_get_to AForeign p = Ret None None) /\
+  (forall w v p nid, si_set_with_buffer w AForeign v p nid = Ret (AForeign, nid) None) /\
+  (forall w o r p, si_compare w AForeign o r p = Ret None None) /\
+  (forall it p, si_loop AForeign it p = Ret [] None) /\
+  (forall p, si_length AForeign p = Ret NotWritten None) /\
+  (forall p, si_capacity AForeign p = Ret NotWritten None) /\
+  (forall w y, si_deep_equal w AForeign y = Ret false None) /\
+  (forall w x, good x = true -> si_deep_equal w x AForeign = Ret false None) /\
+  (forall d nid, si_copy_to AForeign d nid = Ret (d, nid) (Some EUnsupported)) /\
+  (forall x nid, good x = true -> si_copy_to x AForeign nid = Ret (AForeign, nid) (Some EUnsupported)) /\
+  si_reset AForeign = Ret AForeign None.
+Proof. exact foreign_refused. Qed.
+Print Assumptions C17_foreign_refused.
+
 (* ---------- histories ---------- *)
 (* Any list of Set / Get / Compare / Length / Capacity / Loop / DeepEqual / CopyTo (either
    direction) / Reset calls on one value: the wrapped sequence after the history is the abstract
